@@ -178,7 +178,13 @@ def run(rep, tier, seed):
                     terms.append("true")
                     continue
                 term, _, _ = LC.real_to_model(out)
-                kinds = gl_nats(LC.letters_to_kinds(tuple(text.split())))
+                ks = LC.letters_to_kinds(tuple(text.split()))
+                if any(k >= r.dump.nterm for k in ks):
+                    # a word that is no terminal of this grammar: the harness lexer has no kind to return for it,
+                    # the model lexers are defined on token kinds of the grammar only
+                    terms.append("true")
+                    continue
+                kinds = gl_nats(ks)
                 terms.append("outcome_eqb (run_lex_auto g%d T%d %s %s) (%s)" % (n, n, lexterm, kinds, term))
             body.append("Eval vm_compute in %s." % gl_list(terms if terms else ["true"]))
         cjobs.append(("c15cl_%d" % (k // 6), "\n".join(body) + "\n", chunk))
